@@ -65,6 +65,14 @@ InRange(g)  == \A f \in 1..Len(g.tbl) : \A j \in 1..Len(g.tbl[f]) :
                   g.tbl[f][j] = PAD \/ g.tbl[f][j] \in 0..(g.n_node - 1)
 LonRange(g) == g.lon_ok
 LatRange(g) == g.lat_ok
+\* ... under every order in which the Grid's attributes were read (r.later: the later decodings of the same
+\* input, each read in another order - see Orders in Dialects.tla)
+Laters(r) == IF Has(r, "later") THEN r.later ELSE <<>>
+LonRangeAll(r) == LonRange(r.got) /\ \A n \in 1..Len(Laters(r)) : Laters(r)[n].lon_ok
+LatRangeAll(r) == LatRange(r.got) /\ \A n \in 1..Len(Laters(r)) : Laters(r)[n].lat_ok
+\* the Cartesian node coordinates denote the same lattice points as the spherical ones, whichever was read first
+XyzAgrees(r) == /\ (Has(r.got, "xyz_pos") => r.got.xyz_pos = r.got.node_pos)
+                /\ \A n \in 1..Len(Laters(r)) : Has(Laters(r)[n], "xyz_pos") => Laters(r)[n].xyz_pos = Laters(r)[n].node_pos
 \* index routes keep the source's node numbering: node k of the grid sits where node k of the source sits
 NodesKept(r) == r.keeps_ids => (r.got.n_node = r.nn /\ r.got.node_pos = Ident(r.nn))
 
@@ -136,8 +144,9 @@ CaseClauses(r) ==
     StdFill         |-> StdFill(r.got),
     PadAtEnd        |-> PadAtEnd(r.got),
     InRange         |-> InRange(r.got),
-    LonRange        |-> LonRange(r.got),
-    LatRange        |-> LatRange(r.got),
+    LonRange        |-> LonRangeAll(r),
+    LatRange        |-> LatRangeAll(r),
+    XyzAgrees       |-> XyzAgrees(r),
     NodesKept       |-> NodesKept(r),
     CarriedEdgeNode |-> CarriedEdgeNode(r),
     CarriedFaceEdge |-> CarriedFaceEdge(r),
